@@ -119,7 +119,24 @@ fn render(c: &Case) -> String {
     let mut body = String::new();
     for (u, (kind, si)) in c.uses.iter().enumerate() {
         let t = format!("S{}", si);
-        match kind % 8 {
+        match kind % 12 {
+            // arrays of buffers (also of several dimensions and through typedefs): the element layout matters as much
+            8 => {
+                s.push_str(&format!("StructuredBuffer<{}> g{}[2];\n", t, u));
+                body.push_str(&format!("    {} v{} = g{}[1][0];\n", t, u, u));
+            }
+            9 => {
+                s.push_str(&format!("RWStructuredBuffer<{}> g{}[2][2];\n", t, u));
+                body.push_str(&format!("    {} v{} = g{}[1][0][0];\n", t, u, u));
+            }
+            10 => {
+                s.push_str(&format!("typedef StructuredBuffer<{}> TB{};\nTB{} g{}[3];\n", t, u, u, u));
+                body.push_str(&format!("    {} v{} = g{}[2][0];\n", t, u, u));
+            }
+            11 => {
+                s.push_str(&format!("typedef RWStructuredBuffer<{}> TA{}[2];\nTA{} g{};\n", t, u, u, u));
+                body.push_str(&format!("    {} v{} = g{}[0][1];\n", t, u, u));
+            }
             0 => {
                 s.push_str(&format!("StructuredBuffer<{}> g{};\n", t, u));
                 body.push_str(&format!("    {} v{} = g{}[0];\n", t, u, u));
@@ -231,7 +248,7 @@ fn case_strategy() -> impl Strategy<Value = Case> {
         let structs: Vec<BoxedStrategy<StructDef>> = (0..n)
             .map(|lvl| proptest::collection::vec(member_ty(lvl), 1..=6).prop_map(|members| StructDef { members }).boxed())
             .collect();
-        (structs, proptest::collection::vec((0u8..8, 0..n), 1..=2)).prop_map(move |(structs, mut uses)| {
+        (structs, proptest::collection::vec((0u8..12, 0..n), 1..=2)).prop_map(move |(structs, mut uses)| {
             // the deepest struct is always used so that nesting is exercised
             uses[0].1 = n - 1;
             Case { structs, uses }
